@@ -41,8 +41,19 @@ def overlap (inp : Json) : R Res := do
     ("failed", Json.bool (r.1.lastErr || r.2 = Bisect.Res.maxItems))]
   return { m := o, nt := decide (n > 1 ∧ !bad.isEmpty) }
 
+/-- `c17.rerun`: a job whose every run fails runs once per trigger plus `maxRetries` re-runs in total (the budget is
+shared by all runs of the job and is spent when a re-run is scheduled); a job whose runs succeed is never re-run. -/
+def rerun (inp : Json) : R Res := do
+  let m ← getNat inp "m"
+  let trig := (getArrD inp "triggers").size
+  let fail := getBoolD inp "fail" true
+  let mEff := if m = 0 then 1 else m        -- verifyErrorHandlers: maxRetries 0 means the default, 1
+  let runs := if fail then trig + mEff else trig
+  return { m := Json.mkObj [("runs", jNat runs)], nt := decide (fail ∧ m > 0 ∧ trig > 1) }
+
 def handle (k : String) (inp : Json) : Option (R Res) :=
   match k with
+  | "c17.rerun" => some (rerun inp)
   | "c17.overlap" => some (overlap inp)
   | "c17.bisect" => some (bisect inp)
   | "c17.bisectchild" => some (bisect inp)
